@@ -180,6 +180,12 @@ def judge(sub, text, widths, setting, via="stream", encoding="utf-8", tmpdir=Non
     except errors.DataFormatError as error:
         rows = None
         failed = error
+        try:
+            str(error)  # an error that cannot be put into words is of no use to anybody
+        except Exception as text_error:
+            sub.fail("C13|error-text-raises|%s|%s" % (type(text_error).__name__, via), case,
+                     "str() of the DataFormatError raised %s: %s" % (type(text_error).__name__, text_error))
+            return None
     except Exception as error:
         sub.fail("C13|exc|%s|%s" % (type(error).__name__, via), case,
                  "fixed_rows raised %s: %s" % (type(error).__name__, error))
